@@ -82,11 +82,12 @@ Definition contrib (f : Z -> Z -> msg -> list Z) (c : Z) (k : ctl) (o : op) : li
 Lemma step_ctl k ch o :
   fst (fst (step (k, ch) o)) = match o with Msg cid m => fst (dispatch k cid m) | _ => k end.
 Proof.
-  destruct o as [cid m|c n|c n|c b|c]; cbn.
+  destruct o as [cid m|c n|c n|c b|c|c]; cbn.
   - destruct (dispatch k cid m); reflexivity.
   - destruct (recv_out (ch c) n); reflexivity.
   - destruct (recv_err (ch c) n); reflexivity.
   - destruct (set_combine (ch c) b); reflexivity.
+  - reflexivity.
   - reflexivity.
 Qed.
 
@@ -97,7 +98,7 @@ Lemma spec_cons (P : Z -> list (Z * msg) -> list Z) (f : Z -> Z -> msg -> list Z
     contrib f c k o ++ P c (delivered (fst (fst (step (k, ch) o))) (msgs_of r)).
 Proof.
   intros HP c k ch o r. rewrite step_ctl.
-  destruct o as [cid m|c0 n|c0 n|c0 b|c0]; cbn [msgs_of delivered contrib]; try reflexivity.
+  destruct o as [cid m|c0 n|c0 n|c0 b|c0|c0]; cbn [msgs_of delivered contrib]; try reflexivity.
   destruct (dispatch k cid m) as [k' d]. cbn [fst snd]. destruct d; [apply HP|reflexivity].
 Qed.
 
@@ -130,7 +131,7 @@ Lemma step_lstep c k ch o :
         (reads_out c (snd (step (k, ch) o))) (reads_err c (snd (step (k, ch) o)))
         (contrib data1 c k o) (contrib ext1 c k o).
 Proof.
-  destruct o as [cid m|c0 n|c0 n|c0 b|c0]; cbn [step contrib].
+  destruct o as [cid m|c0 n|c0 n|c0 b|c0|c0]; cbn [step contrib].
   - (* incoming message *)
     destruct (dispatch k cid m) as [k' d]. cbn [fst snd reads_out reads_err flat_map].
     destruct d; [|apply lstep_refl].
@@ -181,6 +182,10 @@ Proof.
     + apply L_same; cbn; auto; discriminate.
   - (* poll exit status *)
     cbn [fst snd reads_out reads_err flat_map]. apply lstep_refl.
+  - (* local close *)
+    cbn [fst snd reads_out reads_err flat_map]. unfold upd.
+    destruct (c =? c0) eqn:E; [|apply lstep_refl].
+    apply Z.eqb_eq in E. subst c0. apply L_same; cbn; auto.
 Qed.
 
 (* ---- gluing one local step in front of a history ----------------------------------------- *)
@@ -289,7 +294,7 @@ Lemma step_comb_false c k ch o :
   c_comb (ch c) = false -> (forall b, o = SetCombine c b -> b = false) ->
   c_comb (snd (fst (step (k, ch) o)) c) = false.
 Proof.
-  intros C N. destruct o as [cid m|c0 n|c0 n|c0 b|c0]; cbn [step].
+  intros C N. destruct o as [cid m|c0 n|c0 n|c0 b|c0|c0]; cbn [step].
   - destruct (dispatch k cid m) as [k' d]. cbn [fst snd]. destruct d; [|exact C].
     unfold upd. destruct (c =? cid) eqn:E; [|exact C].
     apply Z.eqb_eq in E. subst cid.
@@ -308,6 +313,8 @@ Proof.
     apply Z.eqb_eq in E. subst c0. rewrite (N b eq_refl) in Es. unfold set_combine in Es.
     cbn in Es. injection Es as <- <-. reflexivity.
   - exact C.
+  - cbn [fst snd]. unfold upd. destruct (c =? c0) eqn:E; [|exact C].
+    apply Z.eqb_eq in E. subst c0. exact C.
 Qed.
 
 Lemma plain_main : forall ops k ch c,
@@ -417,7 +424,7 @@ Lemma step_exit c k ch o :
   c_exit ch1 = last (contrib stat1 c k o) (c_exit (ch c)) /\
   (c_status (ch c) = true \/ contrib stat1 c k o <> [] -> c_status ch1 = true).
 Proof.
-  cbv zeta. destruct o as [cid m|c0 n|c0 n|c0 b|c0]; cbn [step contrib].
+  cbv zeta. destruct o as [cid m|c0 n|c0 n|c0 b|c0|c0]; cbn [step contrib].
   - destruct (dispatch k cid m) as [k' d]. cbn [fst snd]. destruct d.
     + unfold upd. destruct (c =? cid) eqn:E.
       * apply Z.eqb_eq in E. subst cid. unfold stat1. rewrite Z.eqb_refl.
@@ -441,6 +448,8 @@ Proof.
     destruct (b && negb (c_comb (ch c))); injection Es as <- <-;
       fin.
   - fin.
+  - cbn [fst snd]. unfold upd. destruct (c =? c0) eqn:E; [|fin].
+    apply Z.eqb_eq in E. subst c0. cbn. split; [reflexivity|auto].
 Qed.
 
 Lemma exit_main : forall ops k ch c,
@@ -510,12 +519,13 @@ Proof.
   induction ops as [|o r IH]; intros [k ch] c N; [reflexivity|].
   rewrite events_cons, reads_err_app, IH by (intros c' n Hin; apply (N c' n); right; exact Hin).
   rewrite app_nil_r.
-  destruct o as [cid m|c0 n|c0 n|c0 b|c0]; cbn [step].
+  destruct o as [cid m|c0 n|c0 n|c0 b|c0|c0]; cbn [step].
   - destruct (dispatch k cid m); reflexivity.
   - destruct (recv_out (ch c0) n) as [x [a|]]; reflexivity.
   - assert (E : c0 =? c = false) by (apply Z.eqb_neq; apply (N c0 n); left; reflexivity).
     destruct (recv_err (ch c0) n) as [x [a|]]; cbn; rewrite ?E; reflexivity.
   - destruct (set_combine (ch c0) b); reflexivity.
+  - reflexivity.
   - reflexivity.
 Qed.
 
@@ -714,4 +724,19 @@ Proof.
     rewrite andb_false_r. reflexivity.
   - intros len w p H. change gen_packet_overhead with 64. unfold send_size. cbn [fst].
     destruct (w <? len) eqn:E1; destruct (p - 64 <? _) eqn:E2; lia.
+Qed.
+
+(* lifetime: a local close() leaves the channel registered, so a status that crosses it is still reported *)
+Lemma thm_exit_after_local_close k ch c n :
+  k_active k = true -> memz c (k_reg k) = true ->
+  exit_ready (final (k, ch) [LocalClose c; Msg c (ExitStatus n)] c) = true /\
+  c_exit (final (k, ch) [LocalClose c; Msg c (ExitStatus n)] c) = n.
+Proof.
+  intros Ha Hr.
+  assert (S : statuses c (delivered k (msgs_of [LocalClose c; Msg c (ExitStatus n)])) = [n]).
+  { cbn [msgs_of delivered]. unfold dispatch. rewrite Ha, Hr. cbn [negb is_close].
+    rewrite statuses_cons. unfold stat1. rewrite Z.eqb_refl. reflexivity. }
+  destruct (thm_exit_status k ch [LocalClose c; Msg c (ExitStatus n)] c) as [E1 E2];
+    [rewrite S; discriminate|].
+  split; [exact E1|]. rewrite E2, S. reflexivity.
 Qed.
